@@ -107,7 +107,7 @@ check(
     "C07",
     "exploration",
     "Every ordered pair of equal-dimension one- and two-factor units over a pool drawn from all modules plus synthetic partially-connected systems, through in_unit, +, -, ==, <, sorted: only value / ConversionNotFound (== False, ordering TypeError) outcomes are allowed; the identical case list is executed under python and python -O in subprocesses and the outcome tables must be equal line by line.",
-    "Chains long enough to exhaust the recursion limit (~900 hops) are outside the bound; synthetic chains up to 40 hops, prefixed shapes (prefix on source, target or both) and compound shapes over isolated / partially connected synthetic units are included.",
+    "Chains long enough to exhaust the recursion limit (~900 hops) are outside the bound; synthetic chains up to 40 hops, prefixed shapes (prefix on source, target or both) and compound shapes over isolated / partially connected synthetic units are included; for those an island model of the synthetic definition graph says which pairs no chain of equivalences links, and such a pair must be refused (ConversionNotFound / == False / TypeError), never answered.",
     "exhaustive enumeration of unit pairs; differential run python vs python -O",
     "BoundedEnumerator",
     "DESIGN.md §4 C07",
